@@ -129,6 +129,15 @@ def parse_transitions(lines):
     return ix, ix
 
 
+def _bounded_imap(pool, tasks, batch=600):
+    """like zip(tasks, pool.imap(..)) but with at most `batch` tasks in flight: while the consumer is busy (judging a
+    chunk with TLC) the workers must not pile results up in memory"""
+    for i in range(0, len(tasks), batch):
+        part = tasks[i:i + batch]
+        for t, outs in zip(part, pool.imap(_run_task, part, chunksize=4)):
+            yield t, outs
+
+
 def explore(consts, init_state, calls_at, model_states, *, caching=False, procs=16, max_records=None,
             probe=None, vertex_cls=None, keep_records=True, probe_filter=None, cache_mode=None,
             sink=None, probe_sink=None, chunk=30000, confirmed_out=None, probe_chunk=(5000, 150000), impl=None):
@@ -157,7 +166,7 @@ def explore(consts, init_state, calls_at, model_states, *, caching=False, procs=
                     for i in range(0, len(calls), 8):
                         tasks.append((confirmed[ks], calls[i:i + 8], None))
             nxt = []
-            for (path, _, _), outs in zip(tasks, pool.imap(_run_task, tasks, chunksize=4)):
+            for (path, _, _), outs in _bounded_imap(pool, tasks):
                 if probe_sink is not None and (len(probed) >= probe_chunk[0] or pending_probes >= probe_chunk[1]):
                     probe_sink(probed)
                     probed = []
